@@ -4,6 +4,7 @@ and write a meta.json skeleton; `confirm` results are merged into meta.json by t
 import json, os, shutil, sys
 V = os.path.dirname(os.path.dirname(os.path.abspath(__file__)))
 r2 = '--round2' in sys.argv
+r3 = '--round3' in sys.argv
 # seed_import.py --tree <dir> [--round2] P        the candidates are in <dir>/_seed/{a,b}
 # seed_import.py --tree <dir> --refactor P        behaviour-preserving patches <dir>/_seed/{a..d} -> seeded/refactor/P{a..d}/
 tree = sys.argv[sys.argv.index('--tree') + 1] if '--tree' in sys.argv else None
@@ -27,7 +28,7 @@ for P in [a for a in sys.argv[1:] if not a.startswith('--') and a != tree]:
         if not os.path.exists(os.path.join(src, 'patch.diff')) or os.path.getsize(os.path.join(src, 'patch.diff')) == 0:
             print('skip', src)
             continue
-        dst = os.path.join(V, 'seeded', P + ({'a': 'c', 'b': 'd'}[x] if r2 else x))
+        dst = os.path.join(V, 'seeded', P + ({'a': 'e', 'b': 'f'}[x] if r3 else {'a': 'c', 'b': 'd'}[x] if r2 else x))
         if os.path.exists(dst):
             print('exists', dst)
             continue
@@ -37,7 +38,7 @@ for P in [a for a in sys.argv[1:] if not a.startswith('--') and a != tree]:
             if os.path.isfile(p) and os.path.getsize(p) < 200000 and not f.endswith(('.o', '.log')) and f not in ('demo',):
                 shutil.copy(p, dst)
         # demo.sh default root: make it /repo-agnostic (argument required by our tooling)
-        meta = {'property': P, 'origin': 'independent sub-agent given only the property text and a private worktree (tools/seed_prompt.py%s)' % (', round-2 brief' if r2 else ''),
+        meta = {'property': P, 'origin': 'independent sub-agent given only the property text and a private worktree (tools/seed_prompt.py%s)' % (', round-2 brief, third independent run' if r3 else ', round-2 brief' if r2 else ''),
                 'summary': '', 'needs_to_manifest': '', 'confirmed': None, 'expected': None}
         json.dump(meta, open(os.path.join(dst, 'meta.json'), 'w'), indent=1)
         print('imported', dst)
